@@ -8,9 +8,12 @@ package exec
 
 import (
 	"context"
+	stderrors "errors"
 	"io"
 
 	"github.com/grailbio/base/retry"
+	"github.com/grailbio/bigmachine"
+	"github.com/grailbio/bigslice"
 )
 
 // VerifC15NewFileStore returns a fileStore rooted at prefix.
@@ -59,4 +62,59 @@ func VerifC15ZeroDelayRetryPolicy() int {
 	}
 	retryPolicy = retry.MaxRetries(nil, n)
 	return n
+}
+
+// VerifC15World is a bigmachine session (on the given system, parallelism 1)
+// in which fv has been run to completion, so that its tasks are stored on a
+// worker and the executor knows their location. It hands out the REAL openers
+// the executor puts under retryReader.
+type VerifC15World struct {
+	sess  *Session
+	b     *bigmachineExecutor
+	tasks []*Task
+}
+
+// VerifC15NewWorld starts the session and runs fv.
+func VerifC15NewWorld(ctx context.Context, system bigmachine.System, fv *bigslice.FuncValue, args ...interface{}) (*VerifC15World, error) {
+	sess := Start(Bigmachine(system), Parallelism(1))
+	res, err := sess.Run(ctx, fv, args...)
+	if err != nil {
+		sess.Shutdown()
+		return nil, err
+	}
+	b, ok := sess.executor.(*bigmachineExecutor)
+	if !ok {
+		sess.Shutdown()
+		return nil, stderrors.New("verif: not a bigmachine executor")
+	}
+	return &VerifC15World{sess: sess, b: b, tasks: res.tasks}, nil
+}
+
+// Shutdown ends the session.
+func (w *VerifC15World) Shutdown() { w.sess.Shutdown() }
+
+// NumTasks is the number of result tasks of the run.
+func (w *VerifC15World) NumTasks() int { return len(w.tasks) }
+
+// EvalOpener returns the OpenAt of the openerAt behind
+// bigmachineExecutor.Reader(task, partition) (newEvalReader: evalOpenerAt).
+func (w *VerifC15World) EvalOpener(task, partition int) (func(ctx context.Context, offset int64) (io.ReadCloser, error), error) {
+	r, ok := w.b.Reader(w.tasks[task], partition).(*openerAtReader)
+	if !ok {
+		return nil, stderrors.New("verif: executor reader is not an openerAtReader")
+	}
+	return r.OpenerAt.OpenAt, nil
+}
+
+// MachineOpener returns the OpenAt of the openerAt behind
+// newMachineReader(machine, {task name, partition}) (machineTaskPartition), the
+// reader workers use for their dependencies, aimed at the machine that holds
+// the task.
+func (w *VerifC15World) MachineOpener(task, partition int) (func(ctx context.Context, offset int64) (io.ReadCloser, error), error) {
+	m := w.b.location(w.tasks[task])
+	if m == nil {
+		return nil, stderrors.New("verif: task has no location")
+	}
+	r := newMachineReader(m.Machine, taskPartition{Name: w.tasks[task].Name, Partition: partition})
+	return r.OpenerAt.OpenAt, nil
 }
